@@ -673,6 +673,9 @@ func main() {
 		}
 		return
 	}
+	if len(os.Args) >= 3 && os.Args[1] == "--selftest" {
+		os.Exit(selftest(os.Args[2]))
+	}
 	if len(os.Args) < 3 {
 		die(2, "usage: check <property> quick|thorough | check <property> --replay <file> | check --list | check --warm")
 	}
@@ -753,4 +756,71 @@ func main() {
 		}
 	}()
 	os.Exit(code)
+}
+
+
+// selftest: determinism across processes and GOMAXPROCS. The same run indices
+// of the same seed are executed in separate processes at -test.cpu 1, 4 and 16
+// (and once more at 1); the sets of event-log fingerprints and the counters
+// must be identical.
+func selftest(prop string) int {
+	var s *spec
+	for _, x := range specs {
+		if x.Prop == prop && x.Custom == nil && !x.Secondary {
+			s = x
+		}
+	}
+	if s == nil {
+		die(2, "no simulator engine for %q", prop)
+	}
+	scratch := mkScratch()
+	defer os.RemoveAll(scratch)
+	bin := build(s, scratch)
+	nruns := "150"
+	if v := os.Getenv("VERIF_SELFTEST_RUNS"); v != "" {
+		nruns = v
+	}
+	type res struct {
+		fp    string
+		stats string
+		runs  int64
+	}
+	var results []res
+	cpus := []string{"1", "4", "16", "1"}
+	for i, cpu := range cpus {
+		wdir := filepath.Join(scratch, fmt.Sprintf("st%d", i))
+		os.MkdirAll(filepath.Join(wdir, "tmp"), 0755)
+		cmd := exec.Command(bin, "-test.run", "^TestVerifSim$", "-test.cpu", cpu, "-test.timeout", "0")
+		cmd.Dir = filepath.Join(repo, s.Pkg)
+		cmd.Env = goEnv("TMPDIR="+filepath.Join(wdir, "tmp"), "VERIF_PROP="+s.Prop, "VERIF_TIER=quick", "VERIF_SEED=7", "VERIF_WORKER=0", "VERIF_WORKERS=1",
+			"VERIF_MAXRUNS="+nruns, "VERIF_BUDGET_S=600", "VERIF_OUT="+wdir, "VERIF_KNOWN="+knownPath(), "VERIF_DIR="+verif)
+		out, err := cmd.CombinedOutput()
+		b, rerr := os.ReadFile(filepath.Join(wdir, "worker0.json"))
+		if rerr != nil {
+			fmt.Printf("%s\n", tail(string(out), 2000))
+			die(2, "selftest: no result at -test.cpu %s: %v", cpu, err)
+		}
+		var wo workerOut
+		json.Unmarshal(b, &wo)
+		fb, _ := os.ReadFile(wo.Fingerprints)
+		keys := []string{}
+		for k := range wo.Stats {
+			keys = append(keys, k)
+		}
+		sort.Strings(keys)
+		st := ""
+		for _, k := range keys {
+			st += fmt.Sprintf("%s=%d ", k, wo.Stats[k])
+		}
+		results = append(results, res{fp: fmt.Sprintf("%x", fnv(fb)), stats: st, runs: wo.Runs})
+		fmt.Printf("selftest %s -test.cpu %-2s: runs=%d fingerprint-set=%s\n", prop, cpu, wo.Runs, results[i].fp)
+	}
+	for i := 1; i < len(results); i++ {
+		if results[i] != results[0] {
+			fmt.Printf("selftest %s: DIFFERS between process 0 and process %d\n  %s\n  %s\n", prop, i, results[0].stats, results[i].stats)
+			return 2
+		}
+	}
+	fmt.Printf("selftest %s: %d runs identical across 4 processes (GOMAXPROCS 1/4/16/1)\n", prop, results[0].runs)
+	return 0
 }
